@@ -11,6 +11,12 @@ update_once blocks, method nets across the hierarchy and the open-loop scheduler
 
 Observation uses sys.setprofile: call/return of the update blocks' code objects and call of the method
 functions (keyed by code object AND component instance, so several instances of one class are told apart).
+The profile hook also fires inside greenlets, so a block that calls a blocking method (kind `fl`:
+@blocking / CalleeIfcFL / CallerIfcFL) and is therefore wrapped into a greenlet ticker by WrapGreenletPass is
+observed like any other block: by the code object of the block BODY, wherever the ticker runs it.  Every
+generated blocking method returns immediately, so a wrapped block runs to completion once per cycle.
+Net steps declared by the design (`d.net`: s.w1 //= s.w0) are blocks of the descriptor too (`net:w0`),
+observed by the code object of the generated net block.
 """
 import importlib.util
 import itertools
@@ -20,6 +26,8 @@ import random as _random
 import sys
 import time
 
+from greenlet import getcurrent as _getcurrent
+
 import tlc
 from common import MachineryError, rng, scratch
 
@@ -28,6 +36,10 @@ P = 65521
 # ------------------------------------------------------------------------------------------
 # design model
 # ------------------------------------------------------------------------------------------
+
+
+CALLER_CLS = {"port": "CallerPort", "plain": "CallerPort", "nb": "CallerIfcCL", "fl": "CallerIfcFL"}
+CALLEE_CLS = {"port": "CalleePort", "plain": "CalleePort", "nb": "CalleeIfcCL", "fl": "CalleeIfcFL"}
 
 
 class CLDesign:
@@ -49,13 +61,14 @@ class CLDesign:
         self.topmeths = []   # top's own methods dict(name, kind)
         self.userports = {}  # method key -> 'u0.out0'
         self.shared = {}     # leaf name -> class name of another leaf (two instances of one class)
+        self.nets = []       # dict(src, dsts): net step  s.w<dst> //= s.w<src>  (src is written by a block)
         # resolved constraints (actual method keys / block keys)
         self.mm, self.eq, self.um, self.mu, self.uu = [], [], [], [], []
         self.note = ""
 
     # -- construction helpers ---------------------------------------------------------------
     def leaf(self, name, meths, wrap=0, blocks=()):
-        """meths: 'm0:port m1:nb m2:plain'"""
+        """meths: 'm0:port m1:nb m2:plain m3:fl'   (fl: @blocking method -> CalleeIfcFL)"""
         ms = []
         for t in meths.split():
             n, k = t.split(":")
@@ -75,13 +88,20 @@ class CLDesign:
     def passthru(self, name, target, eq=True):
         """component with a method `fwd` that calls a caller port connected to `target`; the designer
         declares M(fwd) == M(out) (pymtl3's convention for a method that calls a method)"""
-        kind = "nb" if self._kind(target) == "nb" else "port"
+        kind = self._kind(target) if self._kind(target) in ("nb", "fl") else "port"
         self.pts.append({"name": name, "target": target, "kind": kind, "eq": eq})
         if eq:
             self.eq.append((name + ".fwd", target))
             if kind == "nb":
                 self.eq.append((name + ".fwd.rdy", target + ".rdy"))
         return name + ".fwd"
+
+    def net(self, src, dsts):
+        """net step: the signals `dsts` are connected to signal `src` (which some block writes)"""
+        dsts = [dsts] if isinstance(dsts, int) else list(dsts)
+        self.nets.append({"src": src, "dsts": dsts})
+        self.nsig = max([self.nsig, src + 1] + [x + 1 for x in dsts])
+        return "net:w%d" % src
 
     def user(self, name, outs):
         self.users.append({"name": name, "outs": list(outs)})
@@ -215,6 +235,20 @@ class CLDesign:
             for key in u["outs"]:
                 inv += self.invocations(key)
             out.append((u["name"] + ".ub", True, inv, [], []))
+        for n in self.nets:
+            out.append(("net:w%d" % n["src"], False, [], [n["src"]], list(n["dsts"])))
+        return out
+
+    def greenlet_blocks(self):
+        """keys of the blocks WrapGreenletPass has to wrap: a block that calls a blocking method itself
+        (the method of a CalleeIfcFL / CallerIfcFL; calls made inside a method do not count)"""
+        out = set()
+        for b in self.blocks:
+            if any(self._kind(key) == "fl" for key, _via in b["calls"]):
+                out.add(b["name"])
+        for u in self.users:
+            if any(self._kind(key) == "fl" for key in u["outs"]):
+                out.add(u["name"] + ".ub")
         return out
 
     def ext_methods(self):
@@ -236,14 +270,16 @@ class CLDesign:
         bl = self.all_blocks()
         bi = {b[0]: i + 1 for i, b in enumerate(bl)}
         ext = self.ext_methods()
-        blocks = [{"name": k, "once": once, "ext": False, "calls": [mi[m] for m in inv],
+        gl = self.greenlet_blocks()
+        blocks = [{"name": k, "once": once, "ext": False, "gl": k in gl, "net": k.startswith("net:"),
+                   "calls": [mi[m] for m in inv],
                    "rd": [s + 1 for s in rd], "wr": [s + 1 for s in wr]} for k, once, inv, rd, wr in bl]
         # one pseudo block per top-level callee method: "the test bench calls it" (open loop only)
         for m in ext:
             rdy = m.endswith(".rdy")
             chain = self._chain(m[:-4] if rdy else m, ".rdy" if rdy else "")
-            blocks.append({"name": "ext:" + m, "once": True, "ext": True, "calls": [mi[x] for x in chain],
-                           "rd": [], "wr": []})
+            blocks.append({"name": "ext:" + m, "once": True, "ext": True, "gl": False, "net": False,
+                           "calls": [mi[x] for x in chain], "rd": [], "wr": []})
         return {"name": self.name,
                 "blocks": blocks,
                 "methods": [{"name": k} for k in mk],
@@ -276,6 +312,9 @@ class CLDesign:
                 w(ind + "def %s_rdy( s ):" % name)
                 w(ind + "  return True")
                 w(ind + "@non_blocking( %s_rdy )" % name)
+                w(ind + "def %s( s ):" % name)
+            elif kind == "fl":
+                w(ind + "@blocking")
                 w(ind + "def %s( s ):" % name)
             else:
                 w(ind + "def %s_( s ):" % name)
@@ -317,7 +356,7 @@ class CLDesign:
                 w("  def construct( s ):")
                 w("    s.inner = %s()" % inner)
                 for m in lf["meths"]:
-                    w("    s.%s = %s()" % (m["name"], "CalleeIfcCL" if m["kind"] == "nb" else "CalleePort"))
+                    w("    s.%s = %s()" % (m["name"], CALLEE_CLS[m["kind"]]))
                     w("    s.%s //= s.inner.%s" % (m["name"], m["name"]))
                 w("")
                 inner = wn
@@ -325,7 +364,7 @@ class CLDesign:
         for p in self.pts:
             w("class %s( Component ):" % self.cls(p["name"].upper()))
             w("  def construct( s ):")
-            w("    s.out = %s()" % ("CallerIfcCL" if p["kind"] == "nb" else "CallerPort"))
+            w("    s.out = %s()" % CALLER_CLS[p["kind"]])
             if p.get("eq", True):
                 w("    s.add_constraints( M(s.fwd) == M(s.out)%s )" %
                   (", M(s.fwd.rdy) == M(s.out.rdy)" if p["kind"] == "nb" else ""))
@@ -333,6 +372,8 @@ class CLDesign:
                 w("  def fwd_rdy( s ):")
                 w("    return s.out.rdy()")
                 w("  @non_blocking( fwd_rdy )")
+            elif p["kind"] == "fl":
+                w("  @blocking")
             else:
                 w("  @method_port")
             w("  def fwd( s ):")
@@ -342,7 +383,7 @@ class CLDesign:
             w("class %s( Component ):" % self.cls(u["name"].upper()))
             w("  def construct( s ):")
             for j, key in enumerate(u["outs"]):
-                w("    s.out%d = %s()" % (j, "CallerIfcCL" if self._kind(key) == "nb" else "CallerPort"))
+                w("    s.out%d = %s()" % (j, CALLER_CLS[self._kind(key)]))
             w("    s.acc = 0")
             w("    @update_once")
             w("    def ub():")
@@ -367,16 +408,19 @@ class CLDesign:
             for j, key in enumerate(u["outs"]):
                 w("    s.%s.out%d //= %s" % (u["name"], j, self.mref(key, "top", "outer")))
         for key, attr in sorted(self.callers.items()):
-            w("    s.%s = %s()" % (attr, "CallerIfcCL" if self._kind(key) == "nb" else "CallerPort"))
+            w("    s.%s = %s()" % (attr, CALLER_CLS[self._kind(key)]))
             w("    s.%s //= %s" % (attr, self.mref(key, "top", "outer")))
         for attr, key in self.exposed:
-            w("    s.%s = %s()" % (attr, "CalleeIfcCL" if self._kind(key) == "nb" else "CalleePort"))
+            w("    s.%s = %s()" % (attr, CALLEE_CLS[self._kind(key)]))
             w("    s.%s //= %s" % (attr, self.mref(key, "top", "outer")))
         for m in self.topmeths:
             if m["kind"] == "plain":
                 w("    s.%s = CalleePort( method=s.%s_ )" % (m["name"], m["name"]))
         for i in range(self.nsig):
             w("    s.w%d = Wire( Bits16 )" % i)
+        for n in self.nets:
+            for t in n["dsts"]:
+                w("    s.w%d //= s.w%d" % (t, n["src"]))
         for b in self.blocks:
             w("    s.acc_%s = 0" % b["name"])
             w("    s.n_%s = 0" % b["name"])
@@ -450,8 +494,23 @@ class CLDesign:
             key = blk.__name__ if hk == "top" else "%s.%s" % (hk, blk.__name__)
             if key in bi:
                 cmap[(blk.__code__, id(host))] = ("blk", bi[key])
+        # generated net blocks of the design's own net steps (their frames have no local `s`)
+        for blk in getattr(getattr(top, "_dag", None), "genblks", ()):
+            key = self.net_key(top, blk)
+            if key in bi:
+                cmap[(blk.__code__, id(None))] = ("blk", bi[key])
         self._insts = insts
         return cmap, bi, mi
+
+    def net_key(self, top, blk):
+        """descriptor key of a generated net block: by the signal it propagates (None: clk / reset fan-out)"""
+        rd = top._dag.genblk_reads.get(blk)
+        if rd:
+            nm = repr(rd[0])
+            for n in self.nets:
+                if nm == "s.w%d" % n["src"]:
+                    return "net:w%d" % n["src"]
+        return None
 
     def observe(self, top):
         """observable python state after a cycle: {name: value}"""
@@ -523,7 +582,8 @@ class Rec:
                 k = self.cmap.get((code, id(frame.f_locals.get("s"))))
                 if k is not None:
                     if k[0] == "blk":
-                        self.ev.append({"k": "bs", "b": k[1], "m": 0})
+                        # g: the body runs inside a greenlet (harness-side evidence that wrapping happened)
+                        self.ev.append({"k": "bs", "b": k[1], "m": 0, "g": _getcurrent().parent is not None})
                     else:
                         self.ev.append({"k": "inv", "b": 0, "m": k[1]})
             elif code.co_name in ("double_buffer", "no_double_buffer"):
@@ -547,15 +607,29 @@ def _E(k, cls=""):
     return {"k": k, "b": 0, "m": 0, "cls": cls}
 
 
+def raw_block(top, blk):
+    """the update block behind a greenlet ticker of WrapGreenletPass (the block itself otherwise)"""
+    for raw, ticker in getattr(top._dag, "blk_greenlet_mapping", {}).items():
+        if ticker is blk:
+            return raw
+    return blk
+
+
 def blk_key(top, design, blk):
-    """key of a pymtl3 block function: descriptor key for user blocks, '#name' for generated net blocks"""
+    """key of a scheduled pymtl3 function: descriptor key for user blocks (also behind a greenlet ticker) and
+    for the design's own net steps, '#name' for the other generated net blocks (clk / reset fan-out)"""
+    blk = raw_block(top, blk)
     if blk in top._dag.genblks:
-        return "#" + blk.__name__
+        return design.net_key(top, blk) or "#" + blk.__name__
     host = top.get_update_block_host_component(blk)
     for k, v in design._insts.items():
         if v is host:
             return blk.__name__ if k == "top" else "%s.%s" % (k, blk.__name__)
     return "#" + blk.__name__
+
+
+class VertexMismatch(MachineryError):
+    pass
 
 
 def build(mod, design, mode, tie_seed=0, forced=None):
@@ -589,19 +663,26 @@ def build(mod, design, mode, tie_seed=0, forced=None):
             WrapGreenletPass()(top)
             OpenLoopCLPass(print_line_trace=False)(top)
         elif mode == "dag":
+            # the constraint set every scheduler works on (after the re-targeting to greenlet tickers)
             GenDAGPass()(top)
+            WrapGreenletPass()(top)
         else:   # forced
             GenDAGPass()(top)
             WrapGreenletPass()(top)
             SimpleSchedulePass()(top)
             design.bind(top)
             want = forced(top)
-            objs = {blk_key(top, design, b): b for b in top._dag.final_upblks - top.get_all_update_ff()}
+            objs = {}
+            for b in top._dag.final_upblks - top.get_all_update_ff():
+                objs.setdefault(blk_key(top, design, b), []).append(b)
             nets = sorted(k for k in objs if k.startswith("#"))
-            if sorted(want) != sorted(k for k in objs if not k.startswith("#")):
-                raise MachineryError("forced schedule of %s does not name the design's blocks: %s vs %s" %
-                                     (design.name, want, sorted(objs)))
-            top._sched.update_schedule = [objs[k] for k in nets] + [objs[k] for k in want]
+            if sorted(want) != sorted(k for k, v in objs.items() if not k.startswith("#") for _ in v):
+                # pymtl3's vertex set is not the design's block set (a block missing / scheduled twice): the
+                # ordinary runs of this design report it; nothing can be forced here
+                raise VertexMismatch("forced schedule of %s does not name pymtl3's vertices: %s vs %s" %
+                                     (design.name, want, sorted((k, len(v)) for k, v in objs.items())))
+            pool = {k: list(v) for k, v in objs.items()}
+            top._sched.update_schedule = [b for k in nets for b in objs[k]] + [pool[k].pop() for k in want]
             PrepareSimPass(print_line_trace=False)(top)
     except MachineryError:
         raise
@@ -683,9 +764,12 @@ def run_open(mod, design, didx, seed, ncalls, R):
 
 
 def own_extensions(top, design, limit, R):
-    """linear extensions of pymtl3's OWN constraint set (top._dag.all_constraints) over the design's
-    blocks: what pymtl3 itself considers a legal schedule"""
-    V = [b for b in top._dag.final_upblks - top.get_all_update_ff() if b not in top._dag.genblks]
+    """linear extensions of pymtl3's OWN constraint set (top._dag.all_constraints, after WrapGreenletPass:
+    the set the schedule passes read) over the design's blocks, tickers and net steps, the way every
+    schedule pass reads it (an edge counts when both ends are scheduled vertices): what pymtl3 itself
+    considers a legal schedule"""
+    V = [b for b in top._dag.final_upblks - top.get_all_update_ff()
+         if not blk_key(top, design, b).startswith("#")]
     key = {b: blk_key(top, design, b) for b in V}
     V.sort(key=lambda b: key[b])
     E = {(u, v) for (u, v) in top._dag.all_constraints if u in key and v in key}
@@ -746,7 +830,7 @@ SHAPES = {
     "muce": [("mm", "X", "Z"), ("eq", "Z", "W"), ("mu", "W", "B")],
     "rdy": [("mm", "Xr", "Yr")],
 }
-KINDS = ["port", "nb", "plain"]
+KINDS = ["port", "nb", "plain", "fl"]
 ACCESS = ["child", "wrap1", "wrap2", "caller", "user"]
 DECLS = ["leaf", "outer", "deep", "via"]
 
@@ -816,6 +900,120 @@ def pair_grid(quick):
                 out.append(pair_design("P%d_%s%s_%s_%s_%s" % (k, shape, "r" if rev else "", kd, ac, dc),
                                        shape, rev, kd, ac, dc, extra=(k % 3 == 0)))
                 k += 1
+    return out
+
+
+# ---- greenlet-wrapped blocks (WrapGreenletPass): constraint shapes between block types
+#   G  update_once block that calls a blocking method (wrapped into a greenlet ticker)
+#   N  update_once block that calls a non-blocking method      O  ... a method port
+#   P  plain update block (no calls)
+GL_TYPES = {"G": "fl", "N": "nb", "O": "port", "P": None}
+GL_SHAPES = {
+    # A is the block that has to run first (inv: the signal says A first, the explicit constraint B first)
+    "uu":  ("GNOP", "GNOP"),     # U(A) < U(B)
+    "sig": ("GNOP", "GNOP"),     # A writes w0, B reads w0
+    "net": ("GNOP", "GNOP"),     # A writes w0, net step w0 -> w1, B reads w1
+    "inv": ("GNOP", "GNOP"),     # B writes w0, A reads w0, U(A) < U(B) inverts the pair
+    "mm":  ("GNO", "GNO"),       # M(x) < M(y), A calls x, B calls y
+    "um":  ("GNOP", "GNO"),      # U(A) < M(y), B calls y
+    "mu":  ("GNO", "GNOP"),      # M(x) < U(B), A calls x
+    "mme": ("GNO", "GNO"),       # M(x) == M(z), M(z) < M(y)
+}
+GL_ACCESS = ["child", "wrap", "caller"]
+
+
+def gl_design(name, shape, ta, tb, rev, access, extra):
+    d = CLDesign(name, "gl")
+    ka, kb = GL_TYPES[ta] or "port", GL_TYPES[tb] or "port"
+    d.leaf("l0", "m0:%s m1:%s m2:%s" % (ka, kb, ka), wrap={"child": 0, "wrap": 2, "caller": 1, "user": 1}[access])
+    x, y = "l0.m0", "l0.m1"
+    via = "caller" if access == "caller" else "child"
+    if access == "caller":
+        d.callers[x], d.callers[y] = "c0", "c1"
+    calls = {"A": [(x, via)] if ta != "P" else [], "B": [(y, via)] if tb != "P" else []}
+    rd, wr = {"A": [], "B": []}, {"A": [], "B": []}
+    if shape == "sig":
+        wr["A"], rd["B"] = [0], [0]
+    elif shape == "net":
+        wr["A"], rd["B"] = [0], [1]
+    elif shape == "inv":
+        wr["B"], rd["A"] = [0], [0]
+    names = {}
+    for pos, r in enumerate(("B", "A") if rev else ("A", "B")):
+        t = ta if r == "A" else tb
+        if access == "user" and t != "P":
+            names[r] = d.user("u%d" % pos, [x if r == "A" else y])
+        else:
+            names[r] = d.block("b%d" % pos, calls[r], once=t != "P", rd=rd[r], wr=wr[r])["name"]
+    if shape == "net":
+        d.net(0, 1)
+    if extra:                                  # a third wrapped block nobody constrains
+        d.leaf("l1", "m0:fl")
+        d.block("b2", ["l1.m0"])
+    sty = "caller" if access == "caller" and extra else "outer"
+    if shape in ("uu", "inv"):
+        d.constrain("uu", names["A"], names["B"], flip=extra)
+    elif shape == "mm":
+        d.constrain("mm", x, y, site="top" if access != "child" else "l0", sa=sty, sb=sty, flip=extra)
+    elif shape == "mme":
+        d.constrain("eq", x, "l0.m2", site="l0")
+        d.constrain("mm", "l0.m2", y, site="l0")
+    elif shape == "um":
+        d.constrain("um", names["A"], y, sb=sty)
+    elif shape == "mu":
+        d.constrain("mu", x, names["B"], sa=sty)
+    return d
+
+
+def greenlet_designs(quick):
+    """constraint shape x (type of the first block, type of the second) x definition order; at least one of the
+    two blocks is greenlet-wrapped (quick: both wrapped for every shape; the mixed pairs are sampled)"""
+    R = rng("c02cl-gl")
+    out, k = [], 0
+    for shape, (tas, tbs) in GL_SHAPES.items():
+        pairs = [(a, b) for a in tas for b in tbs if "G" in (a, b)]
+        if quick:
+            mixed = [p for p in pairs if p != ("G", "G")]
+            pairs = [("G", "G")] + R.sample(mixed, 2)
+        for ta, tb in pairs:
+            for rev in (False, True):
+                acc = GL_ACCESS[k % 3]
+                if shape in ("mm", "mme") and k % 4 == 3:
+                    acc = "user"               # the callers are blocks of child components (CallerIfcFL ports)
+                out.append(gl_design("gl%d_%s%s_%s%s_%s" % (k, shape, "r" if rev else "", ta, tb, acc),
+                                     shape, ta, tb, rev, acc, extra=(k % 5 == 0)))
+                k += 1
+    # chains of wrapped blocks: every link is a different kind of constraint, the definition order is permuted
+    links = ["uu", "mm", "sig", "net", "um", "mu"]
+    for c in range(3 if quick else 12):
+        n = 4
+        ks = [R.choice(links) for _ in range(n - 1)]
+        d = CLDesign("glchain%d_%s" % (c, "_".join(ks)), "glchain")
+        d.leaf("l0", " ".join("m%d:fl" % i for i in range(2 * n)), wrap=c % 2)
+        order = list(range(n))
+        R.shuffle(order)                       # order[i] = definition position of the i-th block of the chain
+        nm = ["b%d" % order[i] for i in range(n)]
+        spec = {i: {"calls": ["l0.m%d" % (2 * i)], "rd": [], "wr": []} for i in range(n)}
+        sig = 0
+        for i, kd in enumerate(ks):
+            if kd == "sig":
+                spec[i]["wr"].append(sig); spec[i + 1]["rd"].append(sig); sig += 1
+            elif kd == "net":
+                spec[i]["wr"].append(sig); spec[i + 1]["rd"].append(sig + 1); d.net(sig, sig + 1); sig += 2
+        for pos in range(n):
+            i = order.index(pos)
+            d.block(nm[i], spec[i]["calls"], rd=spec[i]["rd"], wr=spec[i]["wr"])
+        for i, kd in enumerate(ks):
+            a, b = "l0.m%d" % (2 * i), "l0.m%d" % (2 * i + 2)
+            if kd == "uu":
+                d.constrain("uu", nm[i], nm[i + 1])
+            elif kd == "mm":
+                d.constrain("mm", a, b, site="l0")
+            elif kd == "um":
+                d.constrain("um", nm[i], b)
+            elif kd == "mu":
+                d.constrain("mu", a, nm[i + 1])
+        out.append(d)
     return out
 
 
@@ -1112,6 +1310,32 @@ def openloop_designs():
     d.block("b0", [])
     d.constrain("mu", "top.push", "b0"); d.constrain("um", "b0", "top.push")
     out.append(d)
+    # open loop with greenlet-wrapped blocks: the test bench's methods are ordered against blocks that call
+    # blocking methods (directly, and through the methods those blocks invoke)
+    for kind in ("port", "fl"):
+        d = CLDesign("olgl_own_" + kind, "olgl")
+        d.leaf("l0", "m0:fl m1:fl")
+        d.topmeths += [{"name": "push", "kind": kind}, {"name": "pull", "kind": kind}]
+        d.block("b0", ["l0.m0"], wr=[0]); d.block("b1", ["l0.m1"], rd=[0])
+        d.constrain("mu", "top.push", "b0"); d.constrain("um", "b1", "top.pull")
+        out.append(d)
+    for rev in (False, True):
+        d = CLDesign("olgl_inner" + ("_rev" if rev else ""), "olgl")
+        d.leaf("l0", "m0:fl m1:fl", wrap=1)
+        d.exposed.append(("t0", "l0.m1"))
+        d.block("b0", ["l0.m0"])
+        if rev:
+            d.constrain("mm", "l0.m1", "l0.m0", site="top")
+        else:
+            d.constrain("mm", "l0.m0", "l0.m1", site="top")
+        out.append(d)
+    # two wrapped blocks ordered against each other, beside a top-level method
+    d = CLDesign("olgl_pair", "olgl")
+    d.leaf("l0", "m0:fl m1:fl m2:port")
+    d.exposed.append(("t0", "l0.m2"))
+    d.block("b0", ["l0.m1"]); d.block("b1", ["l0.m0"])
+    d.constrain("mm", "l0.m0", "l0.m1", site="l0")
+    out.append(d)
     return out
 
 
@@ -1131,16 +1355,22 @@ def rand_designs(n, tag="c02cl-rand"):
             callable_.append(d.passthru("p0", R.choice(meths)))
         nb = R.choice([3, 4, 4, 5])
         nsig = R.choice([0, 0, 1, 2])
+        nets = nsig and R.random() < 0.4
         writer = {}
         for i in range(nb):
             once = R.random() < 0.75
             calls = R.sample(callable_, R.choice([0, 1, 1, 2])) if once else []
-            rd = [s for s in range(nsig) if s in writer and R.random() < 0.5]
+            rd = [s for s in sorted(writer) if R.random() < 0.5]
             wr = [s for s in range(nsig) if s not in writer and R.random() < 0.5]
             for s in wr:
                 writer[s] = i
             d.block("b%d" % i, calls, once=once, rd=rd, wr=wr)
-        d.nsig = nsig
+            if nets:
+                for s in wr:                  # a net step behind the written signal; later blocks may read it
+                    if R.random() < 0.6:
+                        d.net(s, d.nsig if d.nsig > nsig else nsig)
+                        writer[d.nsig - 1] = i
+        d.nsig = max(d.nsig, nsig)
         for _ in range(R.choice([1, 2, 2, 3])):
             kind = R.choice(["mm", "mm", "eq", "um", "mu", "uu"])
             if kind in ("mm", "eq"):
@@ -1166,6 +1396,7 @@ def corpus(quick):
     out = pair_grid(quick)
     out += multi_caller() + cycle_designs() + contra_designs() + selfref_designs()
     out += passthru_designs() + leafblk_designs() + mixed_designs() + openloop_designs()
+    out += greenlet_designs(quick)
     out += rand_designs(40 if quick else 600)
     names = [d.name for d in out]
     if len(set(names)) != len(names):
@@ -1242,7 +1473,7 @@ def _worker(job):
     path = os.path.join(_W["sdir"], "clmod_%d.py" % ci)
     write_module([designs[i] for i in idxs], path)
     mod = load_module(path)
-    traces, obs = [], {}
+    traces, obs, unforced = [], {}, []
     for i in idxs:
         d = designs[i]
         R = rng("c02cl-run:" + d.name)
@@ -1261,20 +1492,28 @@ def _worker(job):
         if exc is None:
             d.bind(top)
             for k, ext in enumerate(own_extensions(top, d, P_["own_limit"], R)):
-                tr, _ = run_closed(mod, d, i + 1, "forced", 0, 1, forced=lambda t, e=ext: e)
+                try:
+                    tr, _ = run_closed(mod, d, i + 1, "forced", 0, 1, forced=lambda t, e=ext: e)
+                except VertexMismatch:
+                    unforced.append(d.name)
+                    break
                 tr["mode"] = "own"
                 tr["seed"] = k
                 traces.append(tr)
         # the specification's linear extensions forced on the real simulator
         names = [b["name"] for b in _W["descs"][i]["blocks"]]
         for k, ext in enumerate(_W["exts"].get(i, [])):
-            tr, ob = run_closed(mod, d, i + 1, "forced", 0, P_["cycles"],
-                                forced=lambda t, e=ext: [names[b - 1] for b in e])
+            try:
+                tr, ob = run_closed(mod, d, i + 1, "forced", 0, P_["cycles"],
+                                    forced=lambda t, e=ext: [names[b - 1] for b in e])
+            except VertexMismatch:
+                unforced.append(d.name)
+                break
             tr["mode"] = "spec"
             tr["seed"] = k
             traces.append(tr)
             obs[(i, "spec%d" % k)] = ob
-    return traces, obs
+    return traces, obs, unforced
 
 
 def deterministic_observables(d, desc, dtc):
@@ -1362,6 +1601,41 @@ def make_canaries(designs, info, traces, verdicts):
         pre, groups, suf = _groups(t["ev"])
         return closed(t, pre + [e for g in groups if g[0]["b"] != 1 for e in g] +
                       [e for g in groups if g[0]["b"] == 1 for e in g] + suf), "reader-before-writer"
+    # 1b. greenlet-wrapped blocks (both blocks of the pair are wrapped): the two tickers swapped, a ticker that
+    #     never ran, a body left suspended inside its greenlet
+    glwant = {"uu": "explicit-order-violated", "inv": "explicit-order-violated", "mm": "method-order-violated",
+              "mme": "method-order-violated", "sig": "reader-before-writer", "net": "reader-before-writer",
+              "um": "block-after-method", "mu": "method-after-block"}
+    glpair = lambda shape: first(lambda t: okrun(t) and designs[t["d"] - 1].family == "gl" and
+                                 designs[t["d"] - 1].name.split("_")[1] in shape and
+                                 designs[t["d"] - 1].name.split("_")[2] == "GG")
+    for shape, clause in sorted(glwant.items()):
+        @canary("gl-swapped:" + shape)
+        def _(shape=shape, clause=clause):
+            t = glpair((shape, shape + "r"))
+            pre, groups, suf = _groups(t["ev"])
+            return closed(t, pre + [e for g in reversed(groups) for e in g] + suf), clause
+
+    @canary("gl-ticker-dropped")
+    def _():
+        t = glpair(("mm", "mmr", "uu", "uur"))
+        pre, groups, suf = _groups(t["ev"])
+        return closed(t, pre + [e for g in groups[1:] for e in g] + suf), "not-run"
+
+    @canary("gl-body-suspended")
+    def _():
+        t = glpair(("mm", "mmr", "uu", "uur"))
+        pre, groups, suf = _groups(t["ev"])
+        return closed(t, pre + groups[0][:1] + [e for g in groups[1:] for e in g] + suf), "protocol"
+
+    @canary("net-step-late")
+    def _():
+        t = first(lambda t: okrun(t) and designs[t["d"] - 1].family == "gl" and
+                  designs[t["d"] - 1].name.split("_")[1] in ("net", "netr"))
+        net = next(k + 1 for k, b in enumerate(designs[t["d"] - 1].desc()["blocks"]) if b["net"])
+        pre, groups, suf = _groups(t["ev"])
+        return closed(t, pre + [e for g in groups if g[0]["b"] != net for e in g] +
+                      [e for g in groups if g[0]["b"] == net for e in g] + suf), "reader-before-writer"
     # 2. a dropped block, a block run twice, a call that reached another method, a call that never arrived
     multi = lambda: first(lambda t: okrun(t) and designs[t["d"] - 1].family == "multi")
 
@@ -1498,10 +1772,11 @@ def run_phase(res, tier):
         jobs = [(ci, rest[ci::nchunk]) for ci in range(nchunk)] + [(nchunk, cyc_all)]
         with multiprocessing.get_context("fork").Pool(ncpu) as pool:
             results = pool.map(_worker, jobs)
-        traces, obs = [], {}
-        for tr, ob in results:
+        traces, obs, unforced = [], {}, set()
+        for tr, ob, un in results:
             traces += tr
             obs.update(ob)
+            unforced |= set(un)
         t_sim = time.time() - t0
 
         # ---- code -> spec
@@ -1524,15 +1799,46 @@ def run_phase(res, tier):
             if not kinds.get(k):
                 raise MachineryError("no %r event in any recorded CL trace (vacuous)" % k)
         res.note("cl_events", kinds)
+        # greenlet wrapping really happened (evidence from the profile hook: the body ran in a child greenlet)
+        ngl, nmis = 0, 0
+        for t in traces:
+            blocks = descs[t["d"] - 1]["blocks"]
+            for e in t["ev"]:
+                if e["k"] == "bs":
+                    ngl += bool(e["g"])
+                    nmis += bool(e["g"]) != blocks[e["b"] - 1]["gl"]
+        if ngl == 0:
+            raise MachineryError("no block body ever ran inside a greenlet (vacuous for WrapGreenletPass)")
+        res.note("cl_block_runs_inside_a_greenlet", ngl)
+        res.note("cl_block_runs_wrapped_differently_from_descriptor", nmis)
+        netruns = sum(1 for t in traces for e in t["ev"] if e["k"] == "bs" and descs[t["d"] - 1]["blocks"][e["b"] - 1]["net"])
+        if netruns == 0:
+            raise MachineryError("no net step of a CL design was ever recorded (vacuous)")
+        res.note("cl_net_step_runs", netruns)
         olexc = {}
         failed = {}
+        crashed = {}
         for t, (err, pos) in zip(traces, verdicts):
             d = designs[t["d"] - 1]
             res.distinct(("cl", d.name, t["mode"]))
             if t["ol"] and t["ev"][0]["k"] == "schedraise":
                 olexc[t["ev"][0]["cls"]] = olexc.get(t["ev"][0]["cls"], 0) + 1
-            if err != "ok":
+            if err == "refused-a-schedulable-design" and not t["ol"] and t["ev"][0]["cls"] != "UpblkCyclicError" \
+                    and d.greenlet_blocks():
+                # a schedule pass CRASHES on a schedulable design with a greenlet-wrapped block: one input
+                # class per (pass group, exception), whatever else the design holds
+                crashed.setdefault((t["mode"], t["ev"][0]["cls"]), []).append(t)
+            elif err != "ok":
                 failed.setdefault((err, d.name), []).append((t, pos))
+        for (mode, cls), lst in sorted(crashed.items()):
+            t = lst[0]
+            d = designs[t["d"] - 1]
+            names = sorted({designs[x["d"] - 1].name for x in lst})
+            res.violation("cl:sched-crash:%s:%s:greenlet-wrapped-block" % (mode, cls),
+                          "pass group %s refuses schedulable CL designs that hold a block calling a blocking method "
+                          "(greenlet ticker) with %s (%d designs, e.g. %s)" % (mode, t.get("exc"), len(names), names[0]),
+                          {"design": descs[t["d"] - 1], "source": d.source(), "exception": t.get("exc"),
+                           "designs": names})
         for (err, name), lst in sorted(failed.items()):
             t, pos = lst[0]
             d = designs[t["d"] - 1]
@@ -1543,6 +1849,13 @@ def run_phase(res, tier):
                           {"design": descs[t["d"] - 1], "source": d.source(), "events": t["ev"][:pos + 2],
                            "exception": t.get("exc"), "runs": modes})
         res.note("cl_openloop_refusal_exception_classes", olexc)
+        # designs whose forced schedules could not be built because pymtl3's vertex set differs from the design's
+        # block set: legitimate only if the ordinary runs of the same design were rejected
+        silent = sorted(n for n in unforced if not any(name == n for (_e, name) in failed))
+        if silent:
+            raise MachineryError("pymtl3 schedules other vertices than the blocks of %s, yet every recorded run of "
+                                 "these designs was accepted" % silent[:5])
+        res.note("cl_designs_without_forced_schedules", sorted(unforced)[:20])
 
         # ---- spec -> code: every forced extension of the specification's order gives the same observable
         #      state wherever the constraints order all blocks that touch it; the real schedulers agree
@@ -1590,7 +1903,7 @@ def run_phase(res, tier):
         res.note("cl_canaries", len(cans))
 
         # ---- the model check
-        for nm, fut, acts in (("closed", fut_mc, ("SomeStart", "Invoke", "End", "Reject", "Done")),
+        for nm, fut, acts in (("closed", fut_mc, ("SomeStart", "Ticker", "NetStep", "Invoke", "End", "Reject", "Done")),
                               ("openloop", fut_ol, ("SomeOLBegin", "OLWrap", "OLCall", "OLStop"))):
             r = fut.result()
             res.add_tlc(r)
@@ -1612,6 +1925,9 @@ def run_phase(res, tier):
     res.note("cl_must_reject", sum(1 for x in info if x["must"]))
     res.note("cl_model_designs", {"closed": len(mc_idx), "openloop": len(ol_idx)})
     res.note("cl_rule", "a CL case = (design, pass group | tie-break seed | forced linear extension | open-loop call "
-             "sequence); the pair grid enumerates constraint shape x orientation x method kind x access path x "
-             "declaration site; distinct = (design, mode)")
+             "sequence); the pair grid enumerates constraint shape x orientation x method kind (method port, "
+             "non-blocking, plain, blocking) x access path x declaration site; the greenlet grid constraint shape "
+             "(U<U, WR<RD, WR<net<RD, inverted, M<M, U<M, M<U, M==M<M) x block types (greenlet-wrapped, update_once "
+             "calling non-blocking / method port, plain) x definition order; distinct = (design, mode)")
+    res.note("cl_greenlet_blocks", sum(len(d.greenlet_blocks()) for d in designs))
     res.note("cl_wall", {"sim_s": round(t_sim, 1), "total_s": round(time.time() - t0, 1)})
